@@ -1,5 +1,5 @@
 //! Façade package, also named `sylvia`: everything is the real crate except
-//!  * `serde_value` — a bounded, `Copy`, arena-backed model of `serde_cw_value` 0.7.0 (the real
+//!  * `serde_value` — a bounded, `Copy`, two-level flat model of `serde_cw_value` 0.7.0 (the real
 //!    container's recursive drop glue and B-tree are out of CBMC's reach, DESIGN P6/P13);
 //!  * `serde_json::to_string` — only used by generated code to build an error *text* (outside the
 //!    claim), returns the empty string.
@@ -18,6 +18,23 @@ pub mod serde_json {
 }
 
 pub mod serde_value {
+    //! Bounded model of `serde_cw_value` 0.7.0, restricted to what the generated wrapper glue uses:
+    //! `Value::deserialize`, `Value::Map(map)`, `map.len()`, `(&map).into_iter()` (first entry),
+    //! `Value::String(s)` comparable with `&str`, `val.deserialize_into()`, an error implementing
+    //! `Display`.
+    //!
+    //! Shape of the model: **two levels, flat structs, no recursion, no arena**
+    //!   Value  = Bool | U64 | String | Unit | Map(LMap) | Other
+    //!   LMap   = up to CAP entries  LStr -> Inner
+    //!   Inner  = unit | bool | u64 | string | LMap2 | other          (a struct with a kind byte)
+    //!   LMap2  = up to CAP entries  LStr -> Sc2
+    //!   Sc2    = unit | bool | u64 | string | other
+    //! Anything deeper, wider, or keyed by a non-string is recorded as `other` and raises
+    //! `MODEL_OVERFLOW`, which every harness asserts to be false (nothing is silently dropped).
+    //! Equal keys overwrite (BTreeMap semantics); iteration order matters to the glue only for
+    //! one-entry maps.  (An earlier model kept `Value`s in a static arena; reading enum tags back
+    //! from the arena made CBMC unwind the Value -> map -> Value recursion on every path.)
+
     use real_sylvia::serde::de::{
         self, DeserializeSeed, Deserializer, EnumAccess, MapAccess, VariantAccess, Visitor,
     };
@@ -37,43 +54,402 @@ pub mod serde_value {
         }
     }
 
-    /// Leaked string (no drop glue).
-    #[derive(Debug, Clone, Copy)]
-    pub struct LStr(pub &'static str);
-
-    fn bytes_eq(a: &str, b: &str) -> bool {
-        let (a, b) = (a.as_bytes(), b.as_bytes());
-        if a.len() != b.len() {
-            return false;
+    pub static mut MODEL_OVERFLOW: bool = false;
+    fn overflow() {
+        unsafe {
+            MODEL_OVERFLOW = true;
         }
-        let mut i = 0;
-        while i < a.len() {
-            if a[i] != b[i] {
+    }
+
+    /// Inline string of at most `SCAP` bytes (no heap object, no drop glue); longer strings are outside
+    /// the model and raise `MODEL_OVERFLOW`.
+    pub const SCAP: usize = 8;
+    #[derive(Debug, Clone, Copy)]
+    pub struct LStr {
+        len: usize,
+        b: [u8; SCAP],
+    }
+    const NOSTR: LStr = LStr { len: 0, b: [0; SCAP] };
+
+    impl LStr {
+        fn new(v: &str) -> LStr {
+            let src = v.as_bytes();
+            let mut b = [0u8; SCAP];
+            if src.len() > SCAP {
+                overflow();
+                return NOSTR;
+            }
+            let mut i = 0;
+            while i < src.len() {
+                b[i] = src[i];
+                i += 1;
+            }
+            LStr { len: src.len(), b }
+        }
+        fn as_str(&self) -> &str {
+            // bytes were copied from a `&str` of this length
+            unsafe { core::str::from_utf8_unchecked(&self.b[..self.len]) }
+        }
+        fn eq_str(&self, o: &str) -> bool {
+            let o = o.as_bytes();
+            if o.len() != self.len {
                 return false;
             }
-            i += 1;
+            let mut i = 0;
+            while i < o.len() {
+                if o[i] != self.b[i] {
+                    return false;
+                }
+                i += 1;
+            }
+            true
         }
-        true
     }
     impl PartialEq for LStr {
         fn eq(&self, o: &LStr) -> bool {
-            bytes_eq(self.0, o.0)
+            if self.len != o.len {
+                return false;
+            }
+            let mut i = 0;
+            while i < self.len {
+                if self.b[i] != o.b[i] {
+                    return false;
+                }
+                i += 1;
+            }
+            true
         }
     }
-    /// The generated glue compares `&&str == &String`-like: `msg == &recv_msg_name`.
+    /// The generated glue compares `msg == &recv_msg_name` (`&&str` with `&&LStr`).
     impl PartialEq<LStr> for str {
         fn eq(&self, o: &LStr) -> bool {
-            bytes_eq(self, o.0)
+            o.eq_str(self)
         }
     }
-    impl<'a> PartialEq<LStr> for &'a str {
-        fn eq(&self, o: &LStr) -> bool {
-            bytes_eq(self, o.0)
+
+    struct LStrVisitor;
+    impl<'de> Visitor<'de> for LStrVisitor {
+        type Value = Option<LStr>;
+        fn expecting(&self, _f: &mut std::fmt::Formatter) -> std::fmt::Result {
+            Ok(())
+        }
+        fn visit_str<E>(self, v: &str) -> Result<Option<LStr>, E> {
+            Ok(Some(LStr::new(v)))
+        }
+        fn visit_bool<E>(self, _v: bool) -> Result<Option<LStr>, E> {
+            Ok(None)
+        }
+        fn visit_u64<E>(self, _v: u64) -> Result<Option<LStr>, E> {
+            Ok(None)
+        }
+        fn visit_unit<E>(self) -> Result<Option<LStr>, E> {
+            Ok(None)
         }
     }
-    impl<'a, 'b> PartialEq<&'b LStr> for &'a str {
-        fn eq(&self, o: &&'b LStr) -> bool {
-            bytes_eq(self, o.0)
+    /// map key: a string, or `None` for anything else (outside the model)
+    struct Key(Option<LStr>);
+    impl<'de> Deserialize<'de> for Key {
+        fn deserialize<D: Deserializer<'de>>(d: D) -> Result<Self, D::Error> {
+            d.deserialize_any(LStrVisitor).map(Key)
+        }
+    }
+
+    pub const CAP: usize = 3;
+    const K_UNIT: u8 = 0;
+    const K_BOOL: u8 = 1;
+    const K_U64: u8 = 2;
+    const K_STR: u8 = 3;
+    const K_MAP: u8 = 4;
+    const K_OTHER: u8 = 5;
+
+    /// second-level scalar
+    #[derive(Debug, Clone, Copy, PartialEq)]
+    pub struct Sc2 {
+        kind: u8,
+        num: u64,
+        s: LStr,
+    }
+    const SC0: Sc2 = Sc2 { kind: K_UNIT, num: 0, s: NOSTR };
+
+    struct Sc2Visitor;
+    impl<'de> Visitor<'de> for Sc2Visitor {
+        type Value = Sc2;
+        fn expecting(&self, _f: &mut std::fmt::Formatter) -> std::fmt::Result {
+            Ok(())
+        }
+        fn visit_bool<E>(self, v: bool) -> Result<Sc2, E> {
+            Ok(Sc2 { kind: K_BOOL, num: v as u64, s: NOSTR })
+        }
+        fn visit_u32<E>(self, v: u32) -> Result<Sc2, E> {
+            Ok(Sc2 { kind: K_U64, num: v as u64, s: NOSTR })
+        }
+        fn visit_u64<E>(self, v: u64) -> Result<Sc2, E> {
+            Ok(Sc2 { kind: K_U64, num: v, s: NOSTR })
+        }
+        fn visit_str<E>(self, v: &str) -> Result<Sc2, E> {
+            Ok(Sc2 { kind: K_STR, num: 0, s: LStr::new(v) })
+        }
+        fn visit_unit<E>(self) -> Result<Sc2, E> {
+            Ok(SC0)
+        }
+        fn visit_none<E>(self) -> Result<Sc2, E> {
+            Ok(SC0)
+        }
+        fn visit_map<A: MapAccess<'de>>(self, _a: A) -> Result<Sc2, A::Error> {
+            overflow(); // third nesting level: outside the model
+            Ok(Sc2 { kind: K_OTHER, num: 0, s: NOSTR })
+        }
+        fn visit_seq<A: de::SeqAccess<'de>>(self, _a: A) -> Result<Sc2, A::Error> {
+            overflow();
+            Ok(Sc2 { kind: K_OTHER, num: 0, s: NOSTR })
+        }
+    }
+    impl<'de> Deserialize<'de> for Sc2 {
+        fn deserialize<D: Deserializer<'de>>(d: D) -> Result<Self, D::Error> {
+            d.deserialize_any(Sc2Visitor)
+        }
+    }
+    impl<'de> Deserializer<'de> for Sc2 {
+        type Error = DeserializerError;
+        fn deserialize_any<V: Visitor<'de>>(self, visitor: V) -> Result<V::Value, DeserializerError> {
+            match self.kind {
+                K_UNIT => visitor.visit_unit(),
+                K_BOOL => visitor.visit_bool(self.num != 0),
+                K_U64 => visitor.visit_u64(self.num),
+                K_STR => visitor.visit_str(self.s.as_str()),
+                _ => Err(DeserializerError),
+            }
+        }
+        fn deserialize_option<V: Visitor<'de>>(self, visitor: V) -> Result<V::Value, DeserializerError> {
+            if self.kind == K_UNIT {
+                visitor.visit_none()
+            } else {
+                visitor.visit_some(self)
+            }
+        }
+        fn deserialize_newtype_struct<V: Visitor<'de>>(self, _n: &'static str, visitor: V) -> Result<V::Value, DeserializerError> {
+            visitor.visit_newtype_struct(self)
+        }
+        fn deserialize_enum<V: Visitor<'de>>(self, _n: &'static str, _vs: &'static [&'static str], visitor: V) -> Result<V::Value, DeserializerError> {
+            if self.kind == K_STR {
+                visitor.visit_enum(EnumDe { variant: self.s, value: None })
+            } else {
+                Err(DeserializerError)
+            }
+        }
+        // serde's IgnoredAny discards whatever it is given
+        fn deserialize_ignored_any<V: Visitor<'de>>(self, visitor: V) -> Result<V::Value, DeserializerError> {
+            visitor.visit_unit()
+        }
+        forward_to_deserialize_any! { bool u8 u16 u32 u64 i8 i16 i32 i64 i128 u128 f32 f64 char str string unit seq
+        bytes byte_buf map unit_struct tuple_struct struct tuple identifier }
+    }
+
+    /// second-level map
+    #[derive(Debug, Clone, Copy, PartialEq)]
+    pub struct LMap2 {
+        n: usize,
+        keys: [LStr; CAP],
+        vals: [Sc2; CAP],
+    }
+    const MAP2_0: LMap2 = LMap2 { n: 0, keys: [NOSTR; CAP], vals: [SC0; CAP] };
+    impl LMap2 {
+        fn insert(&mut self, k: LStr, v: Sc2) {
+            let mut i = 0;
+            while i < self.n {
+                if self.keys[i] == k {
+                    self.vals[i] = v;
+                    return;
+                }
+                i += 1;
+            }
+            if self.n == CAP {
+                overflow();
+                return;
+            }
+            self.keys[self.n] = k;
+            self.vals[self.n] = v;
+            self.n += 1;
+        }
+    }
+    struct Map2De {
+        m: LMap2,
+        i: usize,
+    }
+    impl<'de> MapAccess<'de> for Map2De {
+        type Error = DeserializerError;
+        fn next_key_seed<K: DeserializeSeed<'de>>(&mut self, seed: K) -> Result<Option<K::Value>, DeserializerError> {
+            if self.i < self.m.n {
+                seed.deserialize(StrDe(self.m.keys[self.i])).map(Some)
+            } else {
+                Ok(None)
+            }
+        }
+        fn next_value_seed<V: DeserializeSeed<'de>>(&mut self, seed: V) -> Result<V::Value, DeserializerError> {
+            let v = self.m.vals[self.i];
+            self.i += 1;
+            seed.deserialize(v)
+        }
+    }
+
+    struct StrDe(LStr);
+    impl<'de> Deserializer<'de> for StrDe {
+        type Error = DeserializerError;
+        fn deserialize_any<V: Visitor<'de>>(self, visitor: V) -> Result<V::Value, DeserializerError> {
+            visitor.visit_str(self.0.as_str())
+        }
+        forward_to_deserialize_any! { bool u8 u16 u32 u64 i8 i16 i32 i64 i128 u128 f32 f64 char str string unit seq
+        bytes byte_buf map unit_struct newtype_struct tuple_struct struct tuple identifier option enum ignored_any }
+    }
+
+    /// first-level value
+    #[derive(Debug, Clone, Copy, PartialEq)]
+    pub struct Inner {
+        kind: u8,
+        num: u64,
+        s: LStr,
+        map: LMap2,
+    }
+    const INNER0: Inner = Inner { kind: K_UNIT, num: 0, s: NOSTR, map: MAP2_0 };
+
+    struct InnerVisitor;
+    impl<'de> Visitor<'de> for InnerVisitor {
+        type Value = Inner;
+        fn expecting(&self, _f: &mut std::fmt::Formatter) -> std::fmt::Result {
+            Ok(())
+        }
+        fn visit_bool<E>(self, v: bool) -> Result<Inner, E> {
+            Ok(Inner { kind: K_BOOL, num: v as u64, ..INNER0 })
+        }
+        fn visit_u32<E>(self, v: u32) -> Result<Inner, E> {
+            Ok(Inner { kind: K_U64, num: v as u64, ..INNER0 })
+        }
+        fn visit_u64<E>(self, v: u64) -> Result<Inner, E> {
+            Ok(Inner { kind: K_U64, num: v, ..INNER0 })
+        }
+        fn visit_str<E>(self, v: &str) -> Result<Inner, E> {
+            Ok(Inner { kind: K_STR, s: LStr::new(v), ..INNER0 })
+        }
+        fn visit_unit<E>(self) -> Result<Inner, E> {
+            Ok(INNER0)
+        }
+        fn visit_none<E>(self) -> Result<Inner, E> {
+            Ok(INNER0)
+        }
+        fn visit_seq<A: de::SeqAccess<'de>>(self, _a: A) -> Result<Inner, A::Error> {
+            overflow();
+            Ok(Inner { kind: K_OTHER, ..INNER0 })
+        }
+        fn visit_map<A: MapAccess<'de>>(self, mut a: A) -> Result<Inner, A::Error> {
+            let mut m = MAP2_0;
+            while let Some((k, v)) = a.next_entry::<Key, Sc2>()? {
+                match k.0 {
+                    Some(k) => m.insert(k, v),
+                    None => overflow(),
+                }
+            }
+            Ok(Inner { kind: K_MAP, map: m, ..INNER0 })
+        }
+    }
+    impl<'de> Deserialize<'de> for Inner {
+        fn deserialize<D: Deserializer<'de>>(d: D) -> Result<Self, D::Error> {
+            d.deserialize_any(InnerVisitor)
+        }
+    }
+    impl<'de> Deserializer<'de> for Inner {
+        type Error = DeserializerError;
+        fn deserialize_any<V: Visitor<'de>>(self, visitor: V) -> Result<V::Value, DeserializerError> {
+            match self.kind {
+                K_UNIT => visitor.visit_unit(),
+                K_BOOL => visitor.visit_bool(self.num != 0),
+                K_U64 => visitor.visit_u64(self.num),
+                K_STR => visitor.visit_str(self.s.as_str()),
+                K_MAP => visitor.visit_map(Map2De { m: self.map, i: 0 }),
+                _ => Err(DeserializerError),
+            }
+        }
+        fn deserialize_option<V: Visitor<'de>>(self, visitor: V) -> Result<V::Value, DeserializerError> {
+            if self.kind == K_UNIT {
+                visitor.visit_none()
+            } else {
+                visitor.visit_some(self)
+            }
+        }
+        fn deserialize_newtype_struct<V: Visitor<'de>>(self, _n: &'static str, visitor: V) -> Result<V::Value, DeserializerError> {
+            visitor.visit_newtype_struct(self)
+        }
+        fn deserialize_enum<V: Visitor<'de>>(self, _n: &'static str, _vs: &'static [&'static str], visitor: V) -> Result<V::Value, DeserializerError> {
+            match self.kind {
+                K_STR => visitor.visit_enum(EnumDe { variant: self.s, value: None }),
+                K_MAP => {
+                    if self.map.n != 1 {
+                        return Err(DeserializerError);
+                    }
+                    // a nested enum body would be a third level: scalars only
+                    visitor.visit_enum(Sc2EnumDe { variant: self.map.keys[0], value: self.map.vals[0] })
+                }
+                _ => Err(DeserializerError),
+            }
+        }
+        fn deserialize_ignored_any<V: Visitor<'de>>(self, visitor: V) -> Result<V::Value, DeserializerError> {
+            visitor.visit_unit()
+        }
+        forward_to_deserialize_any! { bool u8 u16 u32 u64 i8 i16 i32 i64 i128 u128 f32 f64 char str string unit seq
+        bytes byte_buf map unit_struct tuple_struct struct tuple identifier }
+    }
+
+    /// top-level map
+    #[derive(Debug, Clone, Copy, PartialEq)]
+    pub struct LMap {
+        n: usize,
+        keys: [LStr; CAP],
+        vals: [Inner; CAP],
+    }
+    impl LMap {
+        pub fn len(&self) -> usize {
+            self.n
+        }
+        fn insert(&mut self, k: LStr, v: Inner) {
+            let mut i = 0;
+            while i < self.n {
+                if self.keys[i] == k {
+                    self.vals[i] = v;
+                    return;
+                }
+                i += 1;
+            }
+            if self.n == CAP {
+                overflow();
+                return;
+            }
+            self.keys[self.n] = k;
+            self.vals[self.n] = v;
+            self.n += 1;
+        }
+    }
+
+    pub struct LIter {
+        m: LMap,
+        i: usize,
+    }
+    impl Iterator for LIter {
+        /// `.0` is the key as a `Value` (the glue matches it against `Value::String`)
+        type Item = (Value, Inner);
+        fn next(&mut self) -> Option<Self::Item> {
+            if self.i < self.m.n {
+                let e = (Value::String(self.m.keys[self.i]), self.m.vals[self.i]);
+                self.i += 1;
+                Some(e)
+            } else {
+                None
+            }
+        }
+    }
+    impl<'a> IntoIterator for &'a LMap {
+        type Item = (Value, Inner);
+        type IntoIter = LIter;
+        fn into_iter(self) -> LIter {
+            LIter { m: *self, i: 0 }
         }
     }
 
@@ -85,89 +461,6 @@ pub mod serde_value {
         Unit,
         Map(LMap),
         Other,
-    }
-
-    /// Entries per map.  A document with more entries is *rejected by the model* (`capacity` error);
-    /// harnesses never feed one (they assume the shape), so nothing is silently dropped.
-    pub const CAP: usize = 3;
-    const ARENA: usize = 16;
-    static mut KEYS: [Value; ARENA] = [Value::Unit; ARENA];
-    static mut VALS: [Value; ARENA] = [Value::Unit; ARENA];
-    static mut NEXT: usize = 0;
-    /// set when the model ran out of capacity: the harness asserts it stayed false
-    pub static mut MODEL_OVERFLOW: bool = false;
-
-    #[derive(Debug, Clone, Copy, PartialEq)]
-    pub struct LMap {
-        n: usize,
-        slot: [usize; CAP],
-    }
-
-    impl LMap {
-        pub fn len(&self) -> usize {
-            self.n
-        }
-        fn get(&self, i: usize) -> (&'static Value, &'static Value) {
-            unsafe {
-                (
-                    &*core::ptr::addr_of!(KEYS[self.slot[i]]),
-                    &*core::ptr::addr_of!(VALS[self.slot[i]]),
-                )
-            }
-        }
-        /// BTreeMap semantics for the subset used: equal keys overwrite.  (Iteration order of a
-        /// one-entry map is trivially the B-tree's; the glue only ever iterates one-entry maps.)
-        fn insert(&mut self, k: Value, v: Value) -> bool {
-            let mut i = 0;
-            while i < self.n {
-                if *self.get(i).0 == k {
-                    unsafe {
-                        VALS[self.slot[i]] = v;
-                    }
-                    return true;
-                }
-                i += 1;
-            }
-            if self.n == CAP {
-                return false;
-            }
-            unsafe {
-                let s = NEXT;
-                if s >= ARENA {
-                    return false;
-                }
-                NEXT += 1;
-                KEYS[s] = k;
-                VALS[s] = v;
-                self.slot[self.n] = s;
-            }
-            self.n += 1;
-            true
-        }
-    }
-
-    pub struct LIter {
-        m: LMap,
-        i: usize,
-    }
-    impl Iterator for LIter {
-        type Item = (&'static Value, &'static Value);
-        fn next(&mut self) -> Option<Self::Item> {
-            if self.i < self.m.n {
-                let e = self.m.get(self.i);
-                self.i += 1;
-                Some(e)
-            } else {
-                None
-            }
-        }
-    }
-    impl<'a> IntoIterator for &'a LMap {
-        type Item = (&'static Value, &'static Value);
-        type IntoIter = LIter;
-        fn into_iter(self) -> LIter {
-            LIter { m: *self, i: 0 }
-        }
     }
 
     struct ValueVisitor;
@@ -186,7 +479,7 @@ pub mod serde_value {
             Ok(Value::U64(v))
         }
         fn visit_str<E>(self, v: &str) -> Result<Value, E> {
-            Ok(Value::String(LStr(Box::leak(v.to_owned().into_boxed_str()))))
+            Ok(Value::String(LStr::new(v)))
         }
         fn visit_unit<E>(self) -> Result<Value, E> {
             Ok(Value::Unit)
@@ -198,16 +491,11 @@ pub mod serde_value {
             Ok(Value::Other)
         }
         fn visit_map<A: MapAccess<'de>>(self, mut a: A) -> Result<Value, A::Error> {
-            let mut m = LMap {
-                n: 0,
-                slot: [0; CAP],
-            };
-            while let Some((k, v)) = a.next_entry::<Value, Value>()? {
-                if !m.insert(k, v) {
-                    unsafe {
-                        MODEL_OVERFLOW = true;
-                    }
-                    return Err(de::Error::custom("model capacity"));
+            let mut m = LMap { n: 0, keys: [NOSTR; CAP], vals: [INNER0; CAP] };
+            while let Some((k, v)) = a.next_entry::<Key, Inner>()? {
+                match k.0 {
+                    Some(k) => m.insert(k, v),
+                    None => overflow(),
                 }
             }
             Ok(Value::Map(m))
@@ -230,21 +518,15 @@ pub mod serde_value {
     }
     impl<'de> MapAccess<'de> for MapDe {
         type Error = DeserializerError;
-        fn next_key_seed<K: DeserializeSeed<'de>>(
-            &mut self,
-            seed: K,
-        ) -> Result<Option<K::Value>, DeserializerError> {
+        fn next_key_seed<K: DeserializeSeed<'de>>(&mut self, seed: K) -> Result<Option<K::Value>, DeserializerError> {
             if self.i < self.m.n {
-                seed.deserialize(*self.m.get(self.i).0).map(Some)
+                seed.deserialize(StrDe(self.m.keys[self.i])).map(Some)
             } else {
                 Ok(None)
             }
         }
-        fn next_value_seed<V: DeserializeSeed<'de>>(
-            &mut self,
-            seed: V,
-        ) -> Result<V::Value, DeserializerError> {
-            let v = *self.m.get(self.i).1;
+        fn next_value_seed<V: DeserializeSeed<'de>>(&mut self, seed: V) -> Result<V::Value, DeserializerError> {
+            let v = self.m.vals[self.i];
             self.i += 1;
             seed.deserialize(v)
         }
@@ -252,60 +534,39 @@ pub mod serde_value {
 
     impl<'de> Deserializer<'de> for Value {
         type Error = DeserializerError;
-        fn deserialize_any<V: Visitor<'de>>(
-            self,
-            visitor: V,
-        ) -> Result<V::Value, DeserializerError> {
+        fn deserialize_any<V: Visitor<'de>>(self, visitor: V) -> Result<V::Value, DeserializerError> {
             match self {
                 Value::Bool(v) => visitor.visit_bool(v),
                 Value::U64(v) => visitor.visit_u64(v),
-                Value::String(v) => visitor.visit_str(v.0),
+                Value::String(v) => visitor.visit_str(v.as_str()),
                 Value::Unit => visitor.visit_unit(),
                 Value::Map(m) => visitor.visit_map(MapDe { m, i: 0 }),
                 Value::Other => Err(DeserializerError),
             }
         }
-        fn deserialize_option<V: Visitor<'de>>(
-            self,
-            visitor: V,
-        ) -> Result<V::Value, DeserializerError> {
+        fn deserialize_option<V: Visitor<'de>>(self, visitor: V) -> Result<V::Value, DeserializerError> {
             match self {
                 Value::Unit => visitor.visit_none(),
                 _ => visitor.visit_some(self),
             }
         }
-        fn deserialize_enum<V: Visitor<'de>>(
-            self,
-            _n: &'static str,
-            _vs: &'static [&'static str],
-            visitor: V,
-        ) -> Result<V::Value, DeserializerError> {
-            let (variant, value) = match self {
+        /// mirrors serde_cw_value: a one-entry map is `{variant: body}`, a string a unit variant
+        fn deserialize_enum<V: Visitor<'de>>(self, _n: &'static str, _vs: &'static [&'static str], visitor: V) -> Result<V::Value, DeserializerError> {
+            match self {
                 Value::Map(m) => {
                     if m.n != 1 {
                         return Err(DeserializerError);
                     }
-                    let (k, v) = m.get(0);
-                    (*k, Some(*v))
+                    visitor.visit_enum(EnumDe { variant: m.keys[0], value: Some(m.vals[0]) })
                 }
-                Value::String(s) => (Value::String(s), None),
-                _ => return Err(DeserializerError),
-            };
-            visitor.visit_enum(EnumDe { variant, value })
+                Value::String(s) => visitor.visit_enum(EnumDe { variant: s, value: None }),
+                _ => Err(DeserializerError),
+            }
         }
-        fn deserialize_newtype_struct<V: Visitor<'de>>(
-            self,
-            _n: &'static str,
-            visitor: V,
-        ) -> Result<V::Value, DeserializerError> {
+        fn deserialize_newtype_struct<V: Visitor<'de>>(self, _n: &'static str, visitor: V) -> Result<V::Value, DeserializerError> {
             visitor.visit_newtype_struct(self)
         }
-        // serde's IgnoredAny discards whatever it is given: answering directly is observationally the
-        // same and removes an unbounded recursion.
-        fn deserialize_ignored_any<V: Visitor<'de>>(
-            self,
-            visitor: V,
-        ) -> Result<V::Value, DeserializerError> {
+        fn deserialize_ignored_any<V: Visitor<'de>>(self, visitor: V) -> Result<V::Value, DeserializerError> {
             visitor.visit_unit()
         }
         forward_to_deserialize_any! { bool u8 u16 u32 u64 i8 i16 i32 i64 i128 u128 f32 f64 char str string unit seq
@@ -313,21 +574,18 @@ pub mod serde_value {
     }
 
     struct EnumDe {
-        variant: Value,
-        value: Option<Value>,
+        variant: LStr,
+        value: Option<Inner>,
     }
     impl<'de> EnumAccess<'de> for EnumDe {
         type Error = DeserializerError;
         type Variant = VariantDe;
-        fn variant_seed<S: DeserializeSeed<'de>>(
-            self,
-            seed: S,
-        ) -> Result<(S::Value, VariantDe), DeserializerError> {
+        fn variant_seed<S: DeserializeSeed<'de>>(self, seed: S) -> Result<(S::Value, VariantDe), DeserializerError> {
             let v = VariantDe(self.value);
-            seed.deserialize(self.variant).map(|x| (x, v))
+            seed.deserialize(StrDe(self.variant)).map(|x| (x, v))
         }
     }
-    struct VariantDe(Option<Value>);
+    struct VariantDe(Option<Inner>);
     impl<'de> VariantAccess<'de> for VariantDe {
         type Error = DeserializerError;
         fn unit_variant(self) -> Result<(), DeserializerError> {
@@ -336,31 +594,49 @@ pub mod serde_value {
                 None => Ok(()),
             }
         }
-        fn newtype_variant_seed<T: DeserializeSeed<'de>>(
-            self,
-            seed: T,
-        ) -> Result<T::Value, DeserializerError> {
+        fn newtype_variant_seed<T: DeserializeSeed<'de>>(self, seed: T) -> Result<T::Value, DeserializerError> {
             match self.0 {
                 Some(v) => seed.deserialize(v),
                 None => Err(DeserializerError),
             }
         }
-        fn tuple_variant<V: Visitor<'de>>(
-            self,
-            _l: usize,
-            _v: V,
-        ) -> Result<V::Value, DeserializerError> {
+        fn tuple_variant<V: Visitor<'de>>(self, _l: usize, _v: V) -> Result<V::Value, DeserializerError> {
             Err(DeserializerError)
         }
-        fn struct_variant<V: Visitor<'de>>(
-            self,
-            _f: &'static [&'static str],
-            visitor: V,
-        ) -> Result<V::Value, DeserializerError> {
+        fn struct_variant<V: Visitor<'de>>(self, _f: &'static [&'static str], visitor: V) -> Result<V::Value, DeserializerError> {
             match self.0 {
-                Some(Value::Map(m)) => visitor.visit_map(MapDe { m, i: 0 }),
+                Some(v) if v.kind == K_MAP => visitor.visit_map(Map2De { m: v.map, i: 0 }),
                 _ => Err(DeserializerError),
             }
+        }
+    }
+
+    struct Sc2EnumDe {
+        variant: LStr,
+        value: Sc2,
+    }
+    impl<'de> EnumAccess<'de> for Sc2EnumDe {
+        type Error = DeserializerError;
+        type Variant = Sc2VariantDe;
+        fn variant_seed<S: DeserializeSeed<'de>>(self, seed: S) -> Result<(S::Value, Sc2VariantDe), DeserializerError> {
+            let v = Sc2VariantDe(self.value);
+            seed.deserialize(StrDe(self.variant)).map(|x| (x, v))
+        }
+    }
+    struct Sc2VariantDe(Sc2);
+    impl<'de> VariantAccess<'de> for Sc2VariantDe {
+        type Error = DeserializerError;
+        fn unit_variant(self) -> Result<(), DeserializerError> {
+            <() as Deserialize>::deserialize(self.0)
+        }
+        fn newtype_variant_seed<T: DeserializeSeed<'de>>(self, seed: T) -> Result<T::Value, DeserializerError> {
+            seed.deserialize(self.0)
+        }
+        fn tuple_variant<V: Visitor<'de>>(self, _l: usize, _v: V) -> Result<V::Value, DeserializerError> {
+            Err(DeserializerError)
+        }
+        fn struct_variant<V: Visitor<'de>>(self, _f: &'static [&'static str], _visitor: V) -> Result<V::Value, DeserializerError> {
+            Err(DeserializerError)
         }
     }
 }
